@@ -561,6 +561,13 @@ fn process_tags(
                     }
                     remain.push((idx, t.clone()));
                 }
+            } else if let Err(err) = gen_result {
+                if is_limit_error(&err) {
+                    // ...other than exceeding a configured limit, which is final here too.
+                    // Otherwise e.g. a template which reuses itself twice would carry on
+                    // past each `depth-limit` error and explore all 2^limit branches.
+                    return Err(err);
+                }
             }
         }
         if tags.len() == remain.len() {
